@@ -295,7 +295,7 @@ def check_shipped(case):
 
 
 SUBCHECKS = [
-    Sub("generated", check_generated, strategy=lambda tier: generated_case(tier), quick=120, thorough=1500,
+    Sub("generated", check_generated, strategy=lambda tier: generated_case(tier), quick=240, thorough=8000,
         min_share={"declared": 0.25, "backfilled": 0.25}),
     Sub("shipped", check_shipped, enumerate=shipped_cases,
         note="every byte prefix of every intact shipped .gro file"),
